@@ -87,6 +87,38 @@ def mark_function(obj, attr, marks, now_ns, name=None):
     setattr(obj, attr, wrapped)
 
 
+_WORKER = []
+
+
+def _worker_class():
+    """The harness Entity running one worker's script (defined once, lazily: importing this module must not import the tree)."""
+    if _WORKER:
+        return _WORKER[0]
+    from happysimulator import Entity
+
+    class Worker(Entity):
+        def __init__(self, wid, ops, harness, do_op, gap_of):
+            super().__init__(f"worker{wid}")
+            self.wid, self.script = wid, ops
+            self.finished = False
+            self._h, self._do_op, self._gap_of = harness, do_op, gap_of
+
+        def handle_event(self, event):
+            do_op, gap_of, log = self._do_op, self._gap_of, self._h.ops
+            for idx, op in enumerate(self.script):
+                g = gap_of(op)
+                if g > 0:
+                    yield g / 512
+                rec = OpRec(self.wid, idx, "?", start=self.now.nanoseconds)
+                log.append(rec)
+                rec.result = yield from do_op(self, op, rec)
+                rec.end = self.now.nanoseconds
+            self.finished = True
+
+    _WORKER.append(Worker)
+    return Worker
+
+
 class WorkerHarness:
     """Builds one Simulation of ``entities`` plus one worker entity per workload worker.
 
@@ -96,7 +128,7 @@ class WorkerHarness:
 
     def __init__(self, entities, workers, do_op, op_gap=None, setup=None, max_events=200_000, max_per_instant=20_000,
                  after_event=None):
-        from happysimulator import Entity, Event, Instant, Simulation
+        from happysimulator import Event, Instant, Simulation
 
         self.ops = []           # OpRec in order of operation start (global execution order)
         self.n_events = 0
@@ -106,24 +138,8 @@ class WorkerHarness:
         harness = self
         gap_of = op_gap or (lambda op: 0)
 
-        class Worker(Entity):
-            def __init__(self, wid, ops):
-                super().__init__(f"worker{wid}")
-                self.wid, self.script = wid, ops
-                self.finished = False
-
-            def handle_event(self, event):
-                for idx, op in enumerate(self.script):
-                    g = gap_of(op)
-                    if g > 0:
-                        yield g / 512
-                    rec = OpRec(self.wid, idx, "?", start=self.now.nanoseconds)
-                    harness.ops.append(rec)
-                    rec.result = yield from do_op(self, op, rec)
-                    rec.end = self.now.nanoseconds
-                self.finished = True
-
-        self.workers = [Worker(i, list(w.get("ops") or [])) for i, w in enumerate(workers)]
+        Worker = _worker_class()
+        self.workers = [Worker(i, list(w.get("ops") or []), harness, do_op, gap_of) for i, w in enumerate(workers)]
         self.sim = Simulation(entities=list(entities) + self.workers)
         if setup is not None:
             setup(self.sim)
